@@ -299,3 +299,20 @@ Proof.
   repeat split; try lia.
   intros Hr n m Hn Hkn. specialize (Hk Hr n m Hn Hkn). lia.
 Qed.
+
+(* handleApplyRetentionBoundary publishes the logical floor: RetentionThroughSeq becomes max(old, request) *)
+Theorem apply_raises_retention y through mm mb y1 res :
+  apply_retention y through mm mb = (y1, res) -> through <> 0 ->
+  r_retention (y_r y1) = N.max (r_retention (y_r y)) through.
+Proof.
+  unfold apply_retention. intros H Hne. apply N.eqb_neq in Hne. rewrite Hne in H.
+  set (st1 := if r_retention (y_r y) <? through then with_retention (y_r y) through else y_r y) in *.
+  assert (Hst1 : r_retention st1 = N.max (r_retention (y_r y)) through).
+  { unfold st1. destruct (r_retention (y_r y) <? through) eqn:E; [apply N.ltb_lt in E | apply N.ltb_ge in E]; cbn; lia. }
+  destruct ((through <=? r_local st1) && (through <=? r_phys st1)).
+  { inversion H; subst. exact Hst1. }
+  destruct (retentionTrimDecision st1 through) as [allowed reason].
+  destruct (AdoptRetentionBoundary (y_store y) through) as [[s1 e1] rmax1].
+  destruct (if allowed then TrimMessagesThrough s1 through mm mb else (s1, 0, no_trim)) as [[s2 e2] tr].
+  destruct (negb (e2 =? 0)); inversion H; subst; exact Hst1.
+Qed.
